@@ -340,10 +340,10 @@ Qed.
 (* the known-finding class is inhabited and the domain is not empty *)
 Theorem C01_known_class_witness :
   exists d, known_deep d = true /\
-            d_objects d = [((1, 0), Nat.iter 101 (fun o => OArr [o]) (OInt 7))].
+            d_objects d = [((1, 0), Nat.iter 17 (fun o => OArr [o]) (OInt 7))].
 Proof.
   exists {| d_version := bs "1.5"; d_binary_mark := [xbb; xad; xc0; xde]; d_trailer := [];
-            d_objects := [((1, 0), Nat.iter 101 (fun o => OArr [o]) (OInt 7))]; d_max_id := 1 |}.
+            d_objects := [((1, 0), Nat.iter 17 (fun o => OArr [o]) (OInt 7))]; d_max_id := 1 |}.
   split; [vm_compute; reflexivity | reflexivity].
 Qed.
 
